@@ -447,7 +447,10 @@ impl Cfg {
     }
     /// does this shard own item i of an enumerated space?
     pub fn owns(&self, i: u64) -> bool {
-        i % self.nshards.max(1) == self.shard
+        // mixed, so that enumeration order does not correlate with shard load
+        let mut x = i.wrapping_mul(0x9E3779B97F4A7C15);
+        x ^= x >> 29;
+        x % self.nshards.max(1) == self.shard
     }
 }
 
